@@ -108,6 +108,42 @@ PRE_Q = ("From Coq Require Import ZArith NArith List PrimFloat.\nImport ListNota
          "From RD Require Import Base Model.Dataset Model.Default Model.Queries.\n")
 
 
+def half_life_seconds(value, unit, year_days):
+    """a listed half-life (value, storage unit) in seconds, by the documented unit definitions (correctly rounded)"""
+    from fractions import Fraction
+    from decimal import Decimal
+    yr = Fraction(Decimal(repr(float(year_days)))) * 86400
+    secs = {"ps": Fraction(1, 10**12), "ns": Fraction(1, 10**9), "μs": Fraction(1, 10**6), "us": Fraction(1, 10**6), "ms": Fraction(1, 10**3),
+            "s": Fraction(1), "m": Fraction(60), "h": Fraction(3600), "d": Fraction(86400), "y": yr, "ky": yr * 10**3, "My": yr * 10**6,
+            "By": yr * 10**9, "Gy": yr * 10**9, "Ty": yr * 10**12, "Py": yr * 10**15}[unit]
+    return float(Fraction(Decimal(repr(float(value)))) * secs)
+
+
+def readable_denotes(readable, seconds, year_days):
+    """does the human-readable half-life ('32.76 ky', '100.5 d', 'stable') denote the numeric one (in seconds)?
+    Independent of the library: documented unit definitions, half a unit of the last displayed digit of tolerance."""
+    from fractions import Fraction
+    from decimal import Decimal
+    if readable == "stable":
+        return seconds == math.inf
+    if seconds == math.inf:
+        return False
+    try:
+        val, unit = readable.split(" ")
+        yr = Fraction(Decimal(repr(float(year_days)))) * 86400
+        secs = {"ps": Fraction(1, 10**12), "ns": Fraction(1, 10**9), "μs": Fraction(1, 10**6), "us": Fraction(1, 10**6), "ms": Fraction(1, 10**3),
+                "s": Fraction(1), "m": Fraction(60), "h": Fraction(3600), "d": Fraction(86400), "y": yr, "ky": yr * 10**3, "My": yr * 10**6,
+                "By": yr * 10**9, "Gy": yr * 10**9, "Ty": yr * 10**12, "Py": yr * 10**15}[unit]
+        d = Decimal(val)
+        quantum = Fraction(1, 2) * Fraction(10) ** d.as_tuple().exponent if d.as_tuple().exponent < 0 else Fraction(1, 2)
+        if "e" in val.lower():
+            mant = Decimal(val.lower().split("e")[0])
+            quantum = Fraction(1, 2) * Fraction(10) ** (mant.as_tuple().exponent + int(val.lower().split("e")[1]))
+        return abs(Fraction(d) * secs - Fraction(seconds)) <= quantum * secs * (1 + Fraction(1, 10**9))
+    except Exception:
+        return False
+
+
 def queries_stream(rng, thorough, streams, viol, samples, ds=None):
     """C15: exhaustive over all nuclides: half-lives in every unit (bit-exact vs the Coq float model),
     readable string, lists through the three interfaces, pairwise look-ups inside each chain vs the data file."""
@@ -144,6 +180,10 @@ def queries_stream(rng, thorough, streams, viol, samples, ds=None):
         if r["progeny"] != [str(x) for x in d["progeny"][i]] or r["modes"] != [str(x) for x in d["modes"][i]] \
                 or r["bfs"] != [float(x).hex() for x in d["bfs"][i]]:
             bad_prop.append((name, "progeny/bfs/modes differ from the data set", [r["progeny"], r["bfs"], r["modes"]]))
+        rd_str = r["hl"]["readable"][4:] if r["hl"]["readable"].startswith("str:") else None
+        if rd_str is not None and not r["hl"]["s"].startswith(("ERR", "str")) and \
+                not readable_denotes(rd_str, float.fromhex(r["hl"]["s"]), float(d["year_conv"])):
+            bad_prop.append((name, f"the readable half-life {rd_str!r} does not denote the numeric half-life {float.fromhex(r['hl']['s'])!r} s", r["hl"]["readable"]))
         if r["mass"] != float(d["masses"][i]).hex():
             bad_prop.append((name, "atomic mass differs from the data set", r["mass"]))
         bf = [float.fromhex(x) for x in r["bfs"]]
